@@ -517,9 +517,9 @@ func (tc *typechecker) typedValue(ti *typeInfo, t reflect.Type) any {
 		case reflect.Float64:
 			return c.float64()
 		case reflect.Complex64:
-			return c.complex128()
-		case reflect.Complex128:
 			return complex64(c.complex128())
+		case reflect.Complex128:
+			return c.complex128()
 		default:
 			panic(fmt.Sprintf("unexpected kind %q", k))
 		}
